@@ -247,3 +247,5 @@ _add("C06", tech="fault: an OnDeletion handler that panics after taking note of 
 _add("C19", tech="third engine with a harness-held executor across the save (writes still buffered, scheduled drains not run)")
 _add("C20", tech="fault: loads called with an already cancelled context (the loader must still be invoked and its failure counted once)")
 _add("C10", tech="fault: loads called with an already cancelled context; rule load.result-not-produced")
+_add("C16", tech="MPSC engine also with maxima and initial sizes that are not powers of two")
+_add("C04", tech="the bound is judged against the maximum the callers configured last (totally ordered SetMaximum calls), not against what GetMaximum() reports (bound.maximum-not-applied)")
